@@ -6,6 +6,8 @@
 //        PATCH/OPTIONS (methods without a table); with a shutdown time, Endpoint::shutdown() is called while the load runs
 //     -> M ok=<responses carrying their own request's method and number> bad=<responses that do not> short=<requests left
 //            unanswered although the server was not shut down> shutdown=<1 returned> threads_left=<framework threads alive after shutdown>
+//   R <workers> <asks>   requestLoad asked <asks> times in a row under load -> R got=<answered> lost=<not answered within 3 s>
+//   B <workers>   serve() on its own thread, this thread polls isBound()/getPort(), one request, shutdown() -> B bound=1 answered=1 returned=1
 //   I <workers>   serveThreaded(); shutdown(); at once -> I shutdown=1 threads_left=<alive 3 s after shutdown, before the destructor> dtor=1
 // Built with -fsanitize=thread: a data race inside the framework ends the case as CRASH.
 #include <pistache/endpoint.h>
@@ -15,6 +17,7 @@
 #include <atomic>
 #include <chrono>
 #include <dirent.h>
+#include <functional>
 #include <thread>
 
 #include "pv_net.h"
@@ -92,9 +95,101 @@ static std::string immediate_case(int workers)
     return os.str();
 }
 
+// R <workers> <asks>: Endpoint::requestLoad asked again and again (each time as soon as the previous answer is there) while
+// four clients keep the workers busy: every ask must be answered (bound 3 s each).
+static std::string load_case(int workers, int asks)
+{
+    auto router = std::make_shared<Rest::Router>();
+    Rest::Routes::Get(*router, "/echo/:id", Rest::Routes::bind(&echo));
+    Http::Endpoint ep(Address("127.0.0.1", Port(0)));
+    ep.init(Http::Endpoint::options().threads(workers).flags(Flags<Tcp::Options>(Tcp::Options::ReuseAddr)));
+    ep.setHandler(Rest::Router::handler(router));
+    ep.serveThreaded();
+    uint16_t port = ep.getPort();
+    std::atomic<bool> stop { false };
+    std::vector<std::thread> ts;
+    for (int c = 0; c < 4; ++c)
+        ts.emplace_back([&] {
+            int fd = pv::connect_loopback(port);
+            while (!stop.load())
+            {
+                pv::send_all(fd, "GET /echo/1 HTTP/1.1\r\nHost: a\r\n\r\n");
+                std::string buf;
+                if (!pv::read_until(fd, buf, [](const std::string& b) { return b.find("\r\n\r\n") != std::string::npos && b.find("echo") != std::string::npos; }, 3000))
+                    break;
+            }
+            ::close(fd);
+        });
+    // each ask is issued from the continuation of the previous answer (a monitor that chains its asks): on the thread of
+    // the worker that answered last, while that worker is still inside its handleNotify
+    std::atomic<int> got { 0 };
+    Tcp::Listener::Load first;
+    first.workers.assign(static_cast<size_t>(workers), 0.0);
+    first.raw.assign(static_cast<size_t>(workers), rusage {});
+    first.tick = std::chrono::system_clock::now();
+    std::function<void(const Tcp::Listener::Load&)> ask = [&](const Tcp::Listener::Load& old) {
+        ep.requestLoad(old).then(
+            [&](const Tcp::Listener::Load& l) {
+                if (++got < asks)
+                    ask(l);
+            },
+            [](std::exception_ptr) {});
+    };
+    ask(first);
+    int last = -1, idle = 0;
+    while (got.load() < asks && idle < 15)
+    {
+        std::this_thread::sleep_for(std::chrono::milliseconds(200));
+        idle = got.load() == last ? idle + 1 : 0;
+        last = got.load();
+    }
+    int lost = got.load() < asks ? 1 : 0;
+    stop = true;
+    for (auto& t : ts)
+        t.join();
+    ep.shutdown();
+    std::ostringstream os;
+    os << "R got=" << got.load() << " lost=" << lost;
+    return os.str();
+}
+
+// B <workers>: the blocking serve() runs on a thread of its own while this thread waits for the endpoint to be bound
+// (isBound(), then getPort() - the pattern the comment on getPort() describes), sends one request and shuts down.
+static std::string blocking_case(int workers)
+{
+    auto router = std::make_shared<Rest::Router>();
+    Rest::Routes::Get(*router, "/echo/:id", Rest::Routes::bind(&echo));
+    Http::Endpoint ep(Address("127.0.0.1", Port(0)));
+    ep.init(Http::Endpoint::options().threads(workers).flags(Flags<Tcp::Options>(Tcp::Options::ReuseAddr)));
+    ep.setHandler(Rest::Router::handler(router));
+    std::thread server([&] { ep.serve(); });
+    for (int k = 0; k < 4000 && !ep.isBound(); ++k)
+        std::this_thread::sleep_for(std::chrono::microseconds(200));
+    uint16_t port = ep.isBound() ? static_cast<uint16_t>(ep.getPort()) : 0;
+    int answered  = 0;
+    if (port)
+    {
+        int fd = pv::connect_loopback(port);
+        pv::send_all(fd, "GET /echo/7 HTTP/1.1\r\nHost: a\r\n\r\n");
+        std::string buf;
+        pv::read_until(fd, buf, [](const std::string& b) { return b.find("\r\n\r\n") != std::string::npos; }, 3000);
+        answered = buf.compare(0, 12, "HTTP/1.1 200") == 0;
+        ::close(fd);
+    }
+    ep.shutdown();
+    server.join();
+    std::ostringstream os;
+    os << "B bound=" << (port != 0) << " answered=" << answered << " returned=1";
+    return os.str();
+}
+
 static std::string handle(const std::string& line)
 {
     auto t = pv::split(line);
+    if (t.size() == 3 && t[0] == "R")
+        return load_case(atoi(t[1].c_str()), atoi(t[2].c_str()));
+    if (t.size() == 2 && t[0] == "B")
+        return blocking_case(atoi(t[1].c_str()));
     if (t.size() == 2 && t[0] == "I")
         return immediate_case(atoi(t[1].c_str()));
     if (t.size() < 5)
